@@ -139,8 +139,8 @@ int verif_case(const uint8_t *tape, size_t tlen, Info *info) {
   unsigned blk = 16u << tb.pick({3, 2, 1});   // 16 / 32 / 64 byte blocks
   if (block_mode) {
     coap_context_set_block_mode(ctx, COAP_BLOCK_USE_LIBCOAP);
-    // (a maximum of 16 cannot be configured: libcoap stores the size exponent and reads 0 as 'not set'; the 16 byte blocks are asked for
-    //  by the observers instead, with a Block2 option in the registration request)
+    // (the block size is asked for by the observers, with a Block2 option in the registration request: libcoap splits a representation that would
+    //  fit one message only when the request names a block size; its configured maximum block size merely caps larger ones)
     if (blk > 16) coap_context_set_max_block_size(ctx, blk);
     info->label("block-mode");
   }
@@ -233,7 +233,7 @@ int verif_case(const uint8_t *tape, size_t tlen, Info *info) {
     if (observe >= 0) m.opts.push_back(ref::Opt{6, observe ? std::vector<uint8_t>{(uint8_t)observe} : std::vector<uint8_t>{}});
     m.opts.push_back(ref::Opt{11, {(uint8_t)'r', (uint8_t)('0' + r)}});
     if (query) m.opts.push_back(ref::Opt{15, {'q', '=', '1'}});
-    if (block_mode && blk == 16 && observe == 0) m.opts.push_back(ref::Opt{23, {}});   // Block2 0/0/16
+    if (block_mode && observe == 0) m.opts.push_back(ref::Opt{23, simh::uint_opt(blk == 16 ? 0 : blk == 32 ? 1 : 2)});   // Block2 0/0/<blk>: the observer asks for this block size
     obs[o].tok[token] = {r, query};
     w.peer_send(obs[o].p, srv, ref::encode(m, ref::F_UDP));
   };
